@@ -21,18 +21,27 @@ package ebpf
 // ghost counters (sets clauses). Trusted: these methods touch no caller state.
 
 //@ func (l *Loader) RemoveSubscriber
-//@   trusted writes the subscriber_pools kernel map only
 //@   modifies nothing
+// whenever the map is loaded the entry is removed from the kernel map (exactly one Delete), whatever the key looks like
+//@   ghost bpfDeletes mathint = 0
+//@   ensures l.subscriberPools != nil ==> bpfDeletes == 1
+//@   ensures l.subscriberPools == nil ==> bpfDeletes == 0 && err != nil
 //@   sets relCacheMAC = relCacheMAC + 1
 
 //@ func (l *Loader) RemoveCircuitIDSubscriber
-//@   trusted writes the circuit_id_subscribers kernel map only
 //@   modifies nothing
+// whenever the map is loaded the entry is removed from the kernel map (exactly one Delete), whatever the key looks like
+//@   ghost bpfDeletes mathint = 0
+//@   ensures l.circuitIDSubscribers != nil ==> bpfDeletes == 1
+//@   ensures l.circuitIDSubscribers == nil ==> bpfDeletes == 0 && err != nil
 //@   sets relCacheCID = relCacheCID + 1
 
 //@ func (l *Loader) RemoveCircuitIDMapping
-//@   trusted writes the circuit-id to MAC kernel map only
 //@   modifies nothing
+// whenever the map is loaded the entry is removed from the kernel map (exactly one Delete), whatever the key looks like
+//@   ghost bpfDeletes mathint = 0
+//@   ensures l.circuitIDMap != nil ==> bpfDeletes == 1
+//@   ensures l.circuitIDMap == nil ==> bpfDeletes == 0 && err != nil
 //@   sets relCacheCIDMap = relCacheCIDMap + 1
 
 //@ func (l *Loader) HasVLANSupport
